@@ -66,6 +66,22 @@ Definition is_fresh_expr (e : gexpr) : bool :=
 Section Lower.
   Variable fs : list gfunc.            (* all analysed functions: to know which method names have pointer receivers *)
   Variable self : gfunc.
+  (* call summaries: for a function / value-receiver method name, the access paths of its first result that point to
+     objects allocated during the call (computed below from the callee's own accepted analysis, one level deep) *)
+  Variable summ : string -> list path.
+
+  Definition callee_name (f : gexpr) : option string :=
+    match f with
+    | GSel _ m mk => if String.eqb mk "mval" then Some m else None
+    | GIdent g _ c => if String.eqb c "func" then Some g else None
+    | _ => None
+    end.
+  (* what a call leaves in the variable that receives its first result *)
+  Definition result_allocs (r : gexpr) (p : path) : list istmt :=
+    match r with
+    | GCall f _ _ _ => match callee_name f with Some g => map (fun suf => IAlloc (p ++ suf)%list) (summ g) | None => [] end
+    | _ => []
+    end.
 
   (* a method name is "value only" if no analysed function with that name has a pointer receiver *)
   Definition value_only_method (m : string) : bool :=
@@ -187,7 +203,7 @@ Section Lower.
                         end)
               end
             else if is_value_kind k then effects n r ++ [INop]
-            else effects n r ++ [IClobber p]
+            else effects n r ++ [IClobber p] ++ result_allocs r p
         end
     end
   with lower_stmt (fuel : nat) (s : gstmt) {struct fuel} : list istmt :=
@@ -203,7 +219,15 @@ Section Lower.
                                     | WLocal p k => if is_value_kind k then [INop] else [IClobber p]
                                     | WHeap p => [IWrite p]
                                     | WBad => [IUnknown]
-                                    end) lhs
+                                    end) lhs ++
+                 (* x, i, j := recv.helper(): what the helper's analysis says about its first result *)
+                 match lhs, rhs with
+                 | l0 :: _, [r] => match wtarget l0 with
+                                   | WLocal p k => if is_value_kind k then [] else result_allocs r p
+                                   | _ => []
+                                   end
+                 | _, _ => []
+                 end
         | GIf init c thn els =>
             lower_stmts n init ++ effects n c ++ [IIf (lower_stmts n thn) (lower_stmts n els)]
         | GReturn rs => flat_map (effects n) rs
@@ -236,8 +260,57 @@ End Lower.
 Definition analysed_pkg (f : gfunc) : bool :=
   String.eqb (fn_pkg f) "builder" || String.eqb (fn_pkg f) "fn" || String.eqb (fn_pkg f) "qrb".
 
-Definition fn_safe (fs : list gfunc) (f : gfunc) : bool :=
-  match chks 200 (lower_fn fs f) [] with Some _ => true | None => false end.
+(* ---------------------------------------------------------------- call summaries (one level) *)
+Fixpoint has_return (fuel : nat) (l : list gstmt) : bool :=
+  match fuel with
+  | O => true
+  | S n => existsb (fun s => match s with
+                             | GReturn _ => true
+                             | GIf i _ t e => has_return n i || has_return n t || has_return n e
+                             | GFor i _ p b => has_return n i || has_return n p || has_return n b
+                             | GRange _ _ _ _ b | GBlock b | GSwitch _ b => has_return n b
+                             | _ => false
+                             end) l
+  end.
+
+(* the variable returned as first result by the one and only, final return statement *)
+Definition ret_var (f : gfunc) : option string :=
+  match rev (fn_body f) with
+  | GReturn (GIdent x _ _ :: _) :: before => if has_return 40 before then None else Some x
+  | _ => None
+  end.
+
+Definition no_summ (_ : string) : list path := [].
+
+(* paths below the returned variable that the callee's own (summary-free) analysis knows to be fresh at its end *)
+Definition summary_of (fs : list gfunc) (f : gfunc) : list path :=
+  match ret_var f, chks 200 (lower_fn fs f no_summ) [] with
+  | Some x, Some F => flat_map (fun q => match q with y :: suf => if String.eqb x y then [suf] else [] | [] => [] end) F
+  | _, _ => []
+  end.
+
+Definition analysed_pkg0 (f : gfunc) : bool :=
+  String.eqb (fn_pkg f) "builder" || String.eqb (fn_pkg f) "fn" || String.eqb (fn_pkg f) "qrb".
+
+(* calls are resolved by name only: what all analysed functions / value-receiver methods of that name agree on *)
+Definition summ_table (fs : list gfunc) : list (string * list path) :=
+  let cands := filter (fun f => analysed_pkg0 f && negb (fn_recv_ptr f)) fs in
+  map (fun f =>
+         let same := filter (fun g => String.eqb (fn_name g) (fn_name f)) cands in
+         (fn_name f,
+          match map (summary_of fs) same with
+          | [] => []
+          | s0 :: rest => fold_left (fun acc s1 => filter (fun q => existsb (path_eqb q) s1) acc) rest s0
+          end))
+      (filter (fun f => match ret_var f with Some _ => true | None => false end) cands).
+
+Definition summ_lookup (tbl : list (string * list path)) (g : string) : list path :=
+  match find (fun e => String.eqb (fst e) g) tbl with Some e => snd e | None => [] end.
+
+Definition fn_safe_with (fs : list gfunc) (tbl : list (string * list path)) (f : gfunc) : bool :=
+  match chks 200 (lower_fn fs f (summ_lookup tbl)) [] with Some _ => true | None => false end.
+
+Definition fn_safe (fs : list gfunc) (f : gfunc) : bool := fn_safe_with fs (summ_table fs) f.
 
 (* cloneSlice is the one primitive that writes through a pointer parameter; its body is checked against
    a template:  *dst = make([]T, len(src), len(src)+additionalCapacity); copy( *dst, src)  *)
@@ -259,7 +332,8 @@ Definition value_fn (f : gfunc) : bool :=
   analysed_pkg f && negb (fn_recv_ptr f) && negb (String.eqb (fn_name f) "cloneSlice" && String.eqb (fn_recv f) "").
 
 Definition unsafe_value_fns (fs : list gfunc) : list (string * string * string) :=
-  map (fun f => (fn_pkg f, fn_recv f, fn_name f)) (filter (fun f => value_fn f && negb (fn_safe fs f)) fs).
+  let tbl := summ_table fs in
+  map (fun f => (fn_pkg f, fn_recv f, fn_name f)) (filter (fun f => value_fn f && negb (fn_safe_with fs tbl f)) fs).
 
 Definition all_value_fns_safe (fs : list gfunc) : bool :=
   match unsafe_value_fns fs with [] => true | _ => false end.
